@@ -106,9 +106,7 @@ package arg
 //@   ensures one_input_no_error: len(input) == 1 ==> result1 == nil && result0 == expr_accepts(self, input[0])
 
 // ---- rendering values for the debug log (C19) ---------------------------------------------------------------------------
-// isZero recurses over arrays and struct fields; it only reads.
-//@ trusted func isZero
-//@   pure
+// isZero recurses over arrays and struct fields; it only reads (contract below, with V2I).
 //@ func SprintV
 //@   props C19
 //@   assume values_as_delivered: arr(params) != textref && len(params) < 0x10000 && forall i int :: 0 <= i && i < len(params) ==> rv_valid(params[i])
@@ -138,3 +136,23 @@ package arg
 //@   ensures one_value_per_argument: result1 == nil ==> len(result0) == len(objs)
 //@   ensures each_converted_for_its_own_type: result1 == nil ==> forall j int :: 0 <= j && j < len(objs) ==> i2v_converted(objs[j], result0[j], i2v_type(types, j, isVariadic))
 //@   panics_only_if conversion_rejected: true
+
+// ---- C09: conversion back for Eval ------------------------------------------------------------------------------------------
+// isZero walks arrays and structs recursively; its agreement with reflect's notion of the zero value is assumed.
+//@ trusted func isZero
+//@   props C09 C19
+//@   pure
+//@   ensures zero_value: result == rv_iszero(v)
+
+// V2I: a zero pointer / interface result is handed back as the untyped nil, every other value as its own content
+//@ func V2I
+//@   props C09
+//@   requires shapes: len(types) >= len(params) && len(params) < 0x10000 && (forall k int :: 0 <= k && k < len(params) ==> types[k] != nil && rv_valid(params[k]))
+//@   assigns nothing
+//@   invariant loop 1 converted_so_far: 0 <= rangeindex + 1 && rangeindex + 1 <= len(params) && len(values) == len(params) && fresh(values) && len(types) >= len(params)
+//@     | && (forall k int :: 0 <= k && k < len(params) ==> types[k] != nil && rv_valid(params[k]))
+//@     | && (forall j int :: 0 <= j && j <= rangeindex ==> values[j] == ite((rt_kind(types[j]) == reflect.Interface || rt_kind(types[j]) == reflect.Ptr) && rv_iszero(params[j]), nil, rv_content(params[j])))
+//@   decreases loop 1 len(params) - rangeindex
+//@   ensures one_per_value: len(result) == len(params)
+//@   ensures zero_pointers_and_interfaces_become_untyped_nil: forall j int :: 0 <= j && j < len(params) && (rt_kind(types[j]) == reflect.Interface || rt_kind(types[j]) == reflect.Ptr) && rv_iszero(params[j]) ==> result[j] == nil
+//@   ensures everything_else_unaltered: forall j int :: 0 <= j && j < len(params) && !((rt_kind(types[j]) == reflect.Interface || rt_kind(types[j]) == reflect.Ptr) && rv_iszero(params[j])) ==> result[j] == rv_content(params[j])
